@@ -40,7 +40,7 @@ INPLACE_FAMILY = {
     "C04": ("Network", "InteractingNetworks", "GeoNetwork", "SpatialNetwork"),
     "C11": ("InteractingNetworks",),
     "C09": FAMILY["C09"],
-    "C12": ("Grid", "GeoGrid"),
+    "C12": ("Grid", "GeoGrid", "GeoNetwork", "SpatialNetwork", "ClimateNetwork"),
     "C18": ("ResNetwork",),
 }
 
@@ -276,13 +276,20 @@ def inplace_obligations():
                     alias = None
                     for n in ast.walk(mi.node):
                         if isinstance(n, ast.Assign) and isinstance(n.value, ast.Call) and isinstance(n.value.func, ast.Attribute) \
-                                and isinstance(n.value.func.value, ast.Name) and n.value.func.value.id == "self" \
-                                and n.value.func.attr == m and isinstance(n.targets[0], ast.Name):
+                                and _dotted(n.value.func) == "self." + m and isinstance(n.targets[0], ast.Name):
                             alias = n.targets[0].id
                     if alias is None:
                         notes.append(f"{tgt}: edited by a callee (covered there)")
                         continue
-                    cm = prog.resolve(K, m)
+                    if "." in m:
+                        # result of a method of a component object (self.grid.angular_distance()): memoised if any
+                        # class of the program memoises a method of that name
+                        mname = m.rsplit(".", 1)[1]
+                        cands = [prog.resolve(c, mname) for c in prog.classes]
+                        cands = [c for c in cands if c is not None]
+                        cm = next((c for c in cands if c.cached), cands[0] if cands else None)
+                    else:
+                        cm = prog.resolve(K, m)
                     if cm is not None and not cm.cached:
                         # result of an uncached method: fresh unless it returns a field; conservatively accept
                         notes.append(f"{tgt}: {m} is not cached")
@@ -410,4 +417,27 @@ def c_stateless():
             walk(n, False)
         out.append(res(f"C06/NOSTATE/{pkg}/src_numerics.c", "NOSTATE", "refuted" if bad else "proved", "clang AST scan",
                        "; ".join(bad) or "no static local, no file-scope mutable variable", time.time() - t0))
+    # module level of the .pyx files: a name bound to anything but None, a constant or another name (an alias of a
+    # function / module) is an object that lives across calls - containers, arrays, caches
+    from pvc.runner import load_module
+    for pkg in ("core", "timeseries", "funcnet", "climate"):
+        t0 = time.time()
+        try:
+            m = load_module(pkg, "cy")
+        except Exception as e:
+            out.append(res(f"C06/NOSTATE/{pkg}/_ext/numerics.pyx", "NOSTATE", "inapplicable", "Cython parser", str(e)[:200]))
+            continue
+        bad = []
+        for nm, rhs in sorted(m.get("module_vars", {}).items()):
+            try:
+                e = ast.parse(str(rhs), mode="eval").body
+            except SyntaxError:
+                bad.append(f"`{nm} = {rhs}`")
+                continue
+            ok = isinstance(e, ast.Constant) or (_dotted(e) is not None) or \
+                (isinstance(e, ast.UnaryOp) and isinstance(e.operand, ast.Constant))
+            if not ok:
+                bad.append(f"module-level object `{nm} = {str(rhs)[:40]}`")
+        out.append(res(f"C06/NOSTATE/{pkg}/_ext/numerics.pyx", "NOSTATE", "refuted" if bad else "proved", "Cython parser: module-level bindings",
+                       "; ".join(bad) or "module level binds only constants, None and aliases of functions", time.time() - t0))
     return out
